@@ -113,6 +113,16 @@ def strip_negation(c):
     if c.op == 'call' and c.args[0].op == 'ext' and c.args[0].args[0] in ('jax.numpy.not_equal', 'numpy.not_equal') and len(c.args[1]) == 2 and not c.args[2]:
       c, flipped = T('cmp', '==', c.args[1][0], c.args[1][1]), not flipped
       continue
+    # ordering tests: the four spellings of one test (a >= b, b <= a, not a < b, not b > a) become `a >= b`
+    if c.op == 'cmp' and len(c.args) == 3 and c.args[0] in ('<=', '<', '>'):
+      op, a, b = c.args
+      if op == '<=':
+        c = T('cmp', '>=', b, a)
+      elif op == '<':
+        c, flipped = T('cmp', '>=', a, b), not flipped
+      else:
+        c, flipped = T('cmp', '>=', b, a), not flipped
+      continue
     return c, flipped
 
 
@@ -126,7 +136,7 @@ def ite(c, a, b, loc=None):
     if is_const(c2):
       return b if cval(c2) else a
     return T('ite', c2, b, a, loc=loc)
-  return T('ite', c, a, b, loc=loc)
+  return T('ite', c2, a, b, loc=loc)
 
 
 def tup(*elts):
